@@ -130,6 +130,14 @@ theorem c10_containment_closed (cf cf' : Conf) (k k' : Kind) (g g' : G) (order o
   rw [a1, a2, b1, b2, hcount, hg, solo_congr cf cf' r hcf]
   exact ⟨rfl, rfl⟩
 
+/-- non-vacuity of the closed form: the same run next to a failing run under round-robin, and alone under batch -/
+example : let cf : Conf := { run := fun i => { cfg := { N := 2, retries := 0 }, exe := i } }
+    let g : G := { rs := fun i => { script := if i = 1 then [.exit 1 false 0] else [.exit 0 false 1, .exit 0 false 1] } }
+    (session cf .roundRobin g [0, 1] (List.replicate 6 0)).finished = true ∧
+    (session cf .batch g [0] (List.replicate 6 0)).finished = true ∧
+    projR 0 (session cf .roundRobin g [0, 1] (List.replicate 6 0)).trace
+      = projR 0 (session cf .batch g [0] (List.replicate 6 0)).trace := by decide
+
 /-! ### exit status -/
 
 /-- **Exit status** of a session that gets as far as executing (no usage error,
@@ -182,6 +190,12 @@ theorem c10_abort_status (cf : Conf) (u : Usage) (k : Kind) (faulty : Bool) (g :
     (mainFunc cf u k faulty g order cs (some n)).status = .aborted := by
   simp [mainFunc, hu, hn]
 
+example : let cf : Conf := { run := fun _ => { cfg := { N := 2, retries := 0 }, exe := 0 } }
+    let g : G := { rs := fun _ => { script := [.exit 0 false 1, .exit 0 false 1] } }
+    usageStatus {} = none ∧ (2 ≥ 1 ∧ 2 ≤ countStarts (session cf .batch g [0] [0, 0, 0]).trace) ∧
+    (mainFunc cf {} .batch false g [0] [0, 0, 0] (some 2)).trace = [(0, .start 1), (0, .record 1 1), (0, .start 2)] := by
+  decide
+
 /-- "no exception escapes as a traceback": for every input the session ends in
 one of the four documented statuses -/
 theorem c10_never_crashes (cf : Conf) (u : Usage) (k : Kind) (faulty : Bool) (g : G)
@@ -232,6 +246,14 @@ theorem c10_incomplete_means_abandoned (cf : Conf) (k : Kind) (g : G) (order cs 
     simp only [uncompleted, List.mem_filter, hin, true_and, Bool.not_eq_true', shouldTerminate,
       hfresh, Bool.false_or, decide_eq_false_iff_not] at hm
     omega
+
+/-- non-vacuity: a run that fails at its second invocation with retries 0 -/
+example : let cf : Conf := { run := fun _ => { cfg := { N := 3, retries := 0 }, exe := 0 } }
+    let g : G := { rs := fun _ => { script := [.exit 0 false 1, .exit 1 false 0] } }
+    (session cf .batch g [0] [0, 0, 0]).finished = true ∧
+    ((session cf .batch g [0] [0, 0, 0]).g.rs 0).t.maxInv < (cf.run 0).cfg.N ∧
+    abandoned (cf.run 0).cfg (g.rs 0).t = false ∧
+    abandoned (cf.run 0).cfg ((session cf .batch g [0] [0, 0, 0]).g.rs 0).t = true := by decide
 
 /-! ### the decision of the pinned tree was wrong in both directions (repaired) -/
 
